@@ -5,14 +5,408 @@ The executable predicate `ckLife` (the one the driver evaluates on the *implemen
 observations for C05 / C06 / C07 / C19) accepts every life of the model: a conforming
 implementation can never be flagged by it.  (Non-empty terminator: with an empty terminator lines
 are not delimited and the checker's prefix matching is not unique.)
+
+Invariant carried along a history: the checker's state `pend` is the specification's pending list,
+and its frame fits the capacity.  One lemma per operation (`ckEmit_spec`, `ckFlush_spec`,
+`ckDrop_spec`), on top of facts about prefix matching (`matchPrefix_frame`) and about the walk over
+the attempts of a flush (`ckAtts_flush_none`, `ckAtts_flush_some`).
 -/
 namespace Mlw
 variable {α : Type} [DecidableEq α]
 
+/-! ### prefix matching -/
+
+theorem stripPrefix_append (a b : List α) : stripPrefix? a (a ++ b) = some b := by
+  induction a with
+  | nil => simp [stripPrefix?]
+  | cons x xs ih => simp [stripPrefix?, ih]
+
+omit [DecidableEq α] in
+theorem frame_cons (c : Cfg α) (l : List α) (ls : List (List α)) :
+    frame c (l :: ls) = (l ++ c.ending) ++ frame c ls := by
+  simp [frame]
+
+theorem matchGo_frame (c : Cfg α) (hne : c.ending ≠ []) (ls extra : List (List α)) (k : Nat)
+    (hk : k = 0 → ls ≠ []) : matchGo c (ls ++ extra) (frame c ls) k = some (k + ls.length) := by
+  induction ls generalizing k with
+  | nil =>
+    have hk' : k ≥ 1 := by
+      cases k with
+      | zero => exact absurd rfl (hk rfl)
+      | succ n => omega
+    cases extra <;> simp [matchGo, frame, hk']
+  | cons l ls ih =>
+    have hnil : ((l ++ c.ending) ++ frame c ls).isEmpty = false := by simp [hne]
+    rw [frame_cons, List.cons_append]
+    simp only [matchGo, hnil, Bool.false_and, Bool.false_eq_true, if_false, stripPrefix_append]
+    rw [ih (k + 1) (by omega)]
+    simp only [List.length_cons, Option.some.injEq]
+    omega
+
+theorem matchPrefix_frame (c : Cfg α) (hne : c.ending ≠ []) (p extra : List (List α)) (hp : p ≠ []) :
+    matchPrefix c (p ++ extra) (frame c p) = some p.length := by
+  have he : c.ending.isEmpty = false := by simpa using hne
+  simp only [matchPrefix, he, Bool.and_false, Bool.false_eq_true, if_false]
+  rw [matchGo_frame c hne p extra 0 (fun _ => hp)]
+  simp
+
+theorem ckAtts_nil (c : Cfg α) (work : List (List α)) : ckAtts c work [] = .ok (work, false, 0) := rfl
+
+theorem ckAtts_cons_refused (c : Cfg α) (work : List (List α)) (a : Attempt α) (as : List (Attempt α))
+    (k e : Nat) (w : List (List α)) (b : Bool) (n : Nat)
+    (hm : matchPrefix c work a.payload = some k) (hl : a.payload.length ≤ c.cap)
+    (he : a.err = some e) (h : ckAtts c work as = .ok (w, b, n)) :
+    ckAtts c work (a :: as) = .ok (w, true, n) := by
+  have hl' : ¬ a.payload.length > c.cap := by omega
+  simp only [ckAtts, hm, hl', if_false, he, h, bind, Except.bind, pure, Except.pure]
+
+theorem ckAtts_cons_accepted (c : Cfg α) (work : List (List α)) (a : Attempt α) (as : List (Attempt α))
+    (k : Nat) (w : List (List α)) (b : Bool) (n : Nat)
+    (hm : matchPrefix c work a.payload = some k) (hl : a.payload.length ≤ c.cap)
+    (he : a.err = none) (h : ckAtts c (work.drop k) as = .ok (w, b, n)) :
+    ckAtts c work (a :: as) = .ok (w, b, max k n) := by
+  have hl' : ¬ a.payload.length > c.cap := by omega
+  simp only [ckAtts, hm, hl', if_false, he, h, bind, Except.bind, pure, Except.pure]
+
+theorem ckAtts_refused (c : Cfg α) (hne : c.ending ≠ []) (p extra : List (List α)) (hp : p ≠ [])
+    (hlen : (frame c p).length ≤ c.cap) (fs : List (Attempt α))
+    (hfs : ∀ a ∈ fs, a.payload = frame c p ∧ a.err ≠ none) (tail : List (Attempt α))
+    (w : List (List α)) (b : Bool) (n : Nat) (h : ckAtts c (p ++ extra) tail = .ok (w, b, n)) :
+    ckAtts c (p ++ extra) (fs ++ tail) = .ok (w, b || !fs.isEmpty, n) := by
+  induction fs with
+  | nil => simpa using h
+  | cons a fs ih =>
+    obtain ⟨hpay, herr⟩ := hfs a (by simp)
+    have ih' := ih (fun x hx => hfs x (by simp [hx]))
+    obtain ⟨e, he⟩ : ∃ e, a.err = some e := by
+      cases h' : a.err with
+      | none => exact absurd h' herr
+      | some e => exact ⟨e, rfl⟩
+    rw [List.cons_append]
+    rw [ckAtts_cons_refused c (p ++ extra) a (fs ++ tail) p.length e w _ n
+      (by rw [hpay]; exact matchPrefix_frame c hne p extra hp) (by rw [hpay]; exact hlen) he ih']
+    simp
+
+omit [DecidableEq α] in
+/-- the attempts of a flush, rendered, are `flush_buf`'s own attempts -/
+theorem specFlush_render (c : Cfg α) (p : List (List α)) (orc : List Outcome) :
+    (specFlush c p orc).2.2.1.map (SAtt.render c) = (flushBuf (frame c p) orc).2.2.1 := by
+  rw [specFlush_atts_eq]
+  exact render_group_map c p _ (fun a ha => ((flushBuf_spec (frame c p) orc).1 a ha).1)
+
+omit [DecidableEq α] in
+theorem specDrop_render (c : Cfg α) (p : List (List α)) (orc : List Outcome) :
+    (specDrop c p orc).1.map (SAtt.render c) = (flushBuf (frame c p) orc).2.2.1 := by
+  rw [specDrop_atts_eq]; exact specFlush_render c p orc
+
+/-- a successful flush: refused retries, then one accepted write that consumes all of `p` -/
+theorem ckAtts_flush_none (c : Cfg α) (hne : c.ending ≠ []) (p : List (List α)) (orc : List Outcome)
+    (hlen : (frame c p).length ≤ c.cap) (h : (flushBuf (frame c p) orc).1 = none)
+    (extra : List (List α)) (tail : List (Attempt α)) (w : List (List α)) (b : Bool) (n : Nat)
+    (ht : ckAtts c extra tail = .ok (w, b, n)) :
+    ∃ b', ckAtts c (p ++ extra) ((flushBuf (frame c p) orc).2.2.1 ++ tail) = .ok (w, b', max p.length n) := by
+  by_cases hp : p = []
+  · subst hp
+    rw [(flushBuf_atts (frame c ([] : List (List α))) orc).2.1 rfl]
+    exact ⟨b, by simpa using ht⟩
+  · have hf : frame c p ≠ [] := fun e => hp ((frame_eq_nil_iff c hne p).mp e)
+    obtain ⟨fs, e, hfs⟩ := (flushBuf_atts (frame c p) orc).1 h hf
+    rw [e, List.append_assoc, List.singleton_append]
+    have hacc : ckAtts c (p ++ extra) (⟨frame c p, none⟩ :: tail) = .ok (w, b, max p.length n) :=
+      ckAtts_cons_accepted c (p ++ extra) ⟨frame c p, none⟩ tail p.length w b n
+        (matchPrefix_frame c hne p extra hp) hlen rfl (by rw [List.drop_left]; exact ht)
+    exact ⟨_, ckAtts_refused c hne p extra hp hlen fs hfs _ w b _ hacc⟩
+
+/-- a failed flush: at least one attempt, all refused, nothing consumed -/
+theorem ckAtts_flush_some (c : Cfg α) (hne : c.ending ≠ []) (p : List (List α)) (orc : List Outcome)
+    (hlen : (frame c p).length ≤ c.cap) (k : Nat) (h : (flushBuf (frame c p) orc).1 = some k)
+    (extra : List (List α)) (tail : List (Attempt α)) (w : List (List α)) (b : Bool) (n : Nat)
+    (ht : ckAtts c (p ++ extra) tail = .ok (w, b, n)) :
+    ckAtts c (p ++ extra) ((flushBuf (frame c p) orc).2.2.1 ++ tail) = .ok (w, true, n) := by
+  have hp : p ≠ [] := by
+    intro hp
+    subst hp
+    rw [show frame c ([] : List (List α)) = [] from rfl, flushBuf_nil] at h
+    simp at h
+  obtain ⟨hall, a, hl, _⟩ := (flushBuf_atts (frame c p) orc).2.2 k h
+  have hne' : (flushBuf (frame c p) orc).2.2.1 ≠ [] := by
+    intro e; rw [e] at hl; simp at hl
+  have := ckAtts_refused c hne p extra hp hlen (flushBuf (frame c p) orc).2.2.1
+    (fun x hx => ⟨((flushBuf_spec (frame c p) orc).1 x hx).1, hall x hx⟩) tail w b n ht
+  rw [this]
+  have : (flushBuf (frame c p) orc).2.2.1.isEmpty = false := by simpa using hne'
+  simp [this]
+
+omit [DecidableEq α] in
+theorem lastErr_of_getLast (as : List (Attempt α)) (k : Nat)
+    (h : ∃ a, as.getLast? = some a ∧ a.err = some k) : lastErr as = some k := by
+  obtain ⟨a, hl, ha⟩ := h
+  simp only [lastErr, hl, ha]
+
+/-! ### the checker's per-operation verdicts, from what `ckAtts` computed -/
+
+theorem ckFlush_ok (c : Cfg α) (pend : List (List α)) (atts : List (Attempt α)) (n0 : Nat)
+    (w : List (List α)) (b : Bool) (n : Nat) (h : ckAtts c pend atts = .ok (w, b, n))
+    (hw : frame c w = []) : ckFlush c pend ⟨.ok n0, atts⟩ = .ok [] := by
+  simp [ckFlush, h, hw, bind, Except.bind, pure, Except.pure]
+
+theorem ckFlush_err (c : Cfg α) (pend : List (List α)) (atts : List (Attempt α)) (k : Nat)
+    (w : List (List α)) (b : Bool) (n : Nat) (h : ckAtts c pend atts = .ok (w, b, n))
+    (hl : lastErr atts = some k) : ckFlush c pend ⟨.err k, atts⟩ = .ok w := by
+  simp [ckFlush, h, hl, bind, Except.bind, pure, Except.pure]
+
+theorem ckDrop_ok (c : Cfg α) (pend : List (List α)) (atts : List (Attempt α))
+    (w : List (List α)) (b : Bool) (n : Nat) (h : ckAtts c pend atts = .ok (w, b, n))
+    (hw : b = true ∨ frame c w = []) : ckDrop c pend ⟨.ok 0, atts⟩ = .ok () := by
+  rcases hw with hw | hw <;> simp [ckDrop, h, hw, bind, Except.bind, pure, Except.pure]
+
+/-- (F) the checker accepts a flush of the specification and tracks its pending lines -/
+theorem ckFlush_spec (c : Cfg α) (hne : c.ending ≠ []) (p : List (List α)) (orc : List Outcome)
+    (hlen : (frame c p).length ≤ c.cap) :
+    ckFlush c p ((⟨(specFlush c p orc).1, (specFlush c p orc).2.2.1⟩ : SOpObs α).render c) =
+      .ok (specFlush c p orc).2.1 := by
+  simp only [SOpObs.render, specFlush_render]
+  cases hr : (flushBuf (frame c p) orc).1 with
+  | none =>
+    obtain ⟨b', hb⟩ := ckAtts_flush_none c hne p orc hlen hr [] [] [] false 0 (ckAtts_nil c [])
+    rw [List.append_nil, List.append_nil] at hb
+    rw [specFlush_none c p orc hr]
+    exact ckFlush_ok c p _ 0 [] b' _ hb rfl
+  | some k =>
+    have hb := ckAtts_flush_some c hne p orc hlen k hr [] [] p false 0
+      (by rw [List.append_nil]; exact ckAtts_nil c p)
+    rw [List.append_nil, List.append_nil] at hb
+    rw [specFlush_some c p orc k hr]
+    exact ckFlush_err c p _ k p true 0 hb
+      (lastErr_of_getLast _ k ((flushBuf_atts (frame c p) orc).2.2 k hr).2)
+
+/-- (D) the checker accepts the drop of the specification -/
+theorem ckDrop_spec (c : Cfg α) (hne : c.ending ≠ []) (p : List (List α)) (orc : List Outcome)
+    (hlen : (frame c p).length ≤ c.cap) :
+    ckDrop c p ((⟨.ok 0, (specDrop c p orc).1⟩ : SOpObs α).render c) = .ok () := by
+  simp only [SOpObs.render, specDrop_render]
+  cases hr : (flushBuf (frame c p) orc).1 with
+  | none =>
+    obtain ⟨b', hb⟩ := ckAtts_flush_none c hne p orc hlen hr [] [] [] false 0 (ckAtts_nil c [])
+    rw [List.append_nil, List.append_nil] at hb
+    exact ckDrop_ok c p _ [] b' _ hb (Or.inr rfl)
+  | some k =>
+    have hb := ckAtts_flush_some c hne p orc hlen k hr [] [] p false 0
+      (by rw [List.append_nil]; exact ckAtts_nil c p)
+    rw [List.append_nil, List.append_nil] at hb
+    exact ckDrop_ok c p _ p true 0 hb (Or.inl rfl)
+
+theorem ckEmit_ok (c : Cfg α) (pend : List (List α)) (m : List α) (atts : List (Attempt α))
+    (rest : List (List α)) (b : Bool) (n : Nat)
+    (hfit : ¬ m.length + c.ending.length > c.cap)
+    (h : ckAtts c (pend ++ [m]) atts = .ok (rest, b, n))
+    (hneed : atts = [] ∨ (frame c pend).length + (m.length + c.ending.length) > c.cap ∨
+      ((frame c pend).length = 0 ∧ m.length + c.ending.length = c.cap))
+    (hpart : ¬ (frame c pend).length + (m.length + c.ending.length) > c.cap ∨ n = 0 ∨
+      frame c (if rest.isEmpty then [] else rest.dropLast) = []) :
+    ckEmit c pend m ⟨.ok m.length, atts⟩ = .ok rest := by
+  have h1 : (!atts.isEmpty && !((frame c pend).length + (m.length + c.ending.length) > c.cap ||
+      ((frame c pend).length == 0 && m.length + c.ending.length == c.cap))) = false := by
+    rcases hneed with h | h | ⟨h, h'⟩
+    · simp [h]
+    · simp [h]
+    · simp [h, h']
+  have h2 : (decide ((frame c pend).length + (m.length + c.ending.length) > c.cap) && n != 0 &&
+      !(frame c (if rest.isEmpty then [] else rest.dropLast)).isEmpty) = false := by
+    rcases hpart with h | h | h
+    · simp [h]
+    · simp [h]
+    · rw [h]; simp
+  simp only [ckEmit, hfit, if_false, h, bind, Except.bind, pure, Except.pure, h1, h2]
+  simp
+
+theorem ckEmit_err (c : Cfg α) (pend : List (List α)) (m : List α)
+    (atts : List (Attempt α)) (k : Nat) (rest : List (List α)) (b : Bool) (n : Nat)
+    (hfit : ¬ m.length + c.ending.length > c.cap)
+    (h : ckAtts c (pend ++ [m]) atts = .ok (rest, b, n))
+    (hneed : atts = [] ∨ (frame c pend).length + (m.length + c.ending.length) > c.cap ∨
+      ((frame c pend).length = 0 ∧ m.length + c.ending.length = c.cap))
+    (hpart : ¬ (frame c pend).length + (m.length + c.ending.length) > c.cap ∨ n = 0 ∨
+      frame c (if rest.isEmpty then [] else rest.dropLast) = [])
+    (hl : lastErr atts = some k) (hrest : rest ≠ []) :
+    ckEmit c pend m ⟨.err k, atts⟩ = .ok rest.dropLast := by
+  have h1 : (!atts.isEmpty && !((frame c pend).length + (m.length + c.ending.length) > c.cap ||
+      ((frame c pend).length == 0 && m.length + c.ending.length == c.cap))) = false := by
+    rcases hneed with h | h | ⟨h, h'⟩
+    · simp [h]
+    · simp [h]
+    · simp [h, h']
+  have h2 : (decide ((frame c pend).length + (m.length + c.ending.length) > c.cap) && n != 0 &&
+      !(frame c (if rest.isEmpty then [] else rest.dropLast)).isEmpty) = false := by
+    rcases hpart with h | h | h
+    · simp [h]
+    · simp [h]
+    · rw [h]; simp
+  have h3 : rest.isEmpty = false := by simpa using hrest
+  simp only [h3, Bool.false_eq_true, if_false] at h2
+  simp only [ckEmit, hfit, if_false, h, bind, Except.bind, pure, Except.pure, h1, hl, h3,
+    Bool.false_eq_true, h2]
+  simp
+
+omit [DecidableEq α] in
+theorem specFlush_res_ok (c : Cfg α) (p : List (List α)) (orc : List Outcome) (n : Nat)
+    (h : (specFlush c p orc).1 = .ok n) : (flushBuf (frame c p) orc).1 = none := by
+  cases hr : (flushBuf (frame c p) orc).1 with
+  | none => rfl
+  | some k => rw [specFlush_some c p orc k hr] at h; simp at h
+
+omit [DecidableEq α] in
+theorem specFlush_res_err (c : Cfg α) (p : List (List α)) (orc : List Outcome) (k : Nat)
+    (h : (specFlush c p orc).1 = .err k) : (flushBuf (frame c p) orc).1 = some k := by
+  cases hr : (flushBuf (frame c p) orc).1 with
+  | none => rw [specFlush_none c p orc hr] at h; simp at h
+  | some k' => rw [specFlush_some c p orc k' hr] at h; simp at h; rw [h]
+
+omit [DecidableEq α] in
+/-- in the exact-fill corner (non-empty terminator) exactly one write is passed through: the
+terminator of an empty metric, i.e. the frame of the line `[m]`, as large as the capacity -/
+theorem corner_att (c : Cfg α) (hne : c.ending ≠ []) (p0 : List (List α)) (m : List α)
+    (orc : List Outcome) (hc : isCorner c p0 m = true) :
+    p0 = [] ∧ (frame c [m]).length = c.cap ∧
+    ((directs (cornerWrites c m) orc).2.1.map (fun a => SAtt.group [m] a.err)).map (SAtt.render c) =
+      [⟨frame c [m], (directs (cornerWrites c m) orc).1⟩] := by
+  obtain ⟨h0, hlen, hor⟩ := (isCorner_iff c p0 m).mp hc
+  have hel : c.ending.length ≠ 0 := fun h => hne (List.eq_nil_of_length_eq_zero h)
+  have hm : ¬ m.length ≥ c.cap := by omega
+  have he : c.ending.length ≥ c.cap := by omega
+  have hcw : cornerWrites c m = [c.ending] := by
+    simp only [cornerWrites, hm, he, if_true, if_false, List.nil_append]
+  refine ⟨(frame_eq_nil_iff c hne p0).mp h0, by rw [frame_single, List.length_append]; exact hlen, ?_⟩
+  rw [hcw]
+  rcases direct_cases c.ending orc with ⟨os, d⟩ | ⟨k', os, d⟩
+  · have r1 : (direct c.ending orc).1 = .ok c.ending.length := by rw [d]
+    rw [directs_cons_ok _ _ _ _ r1, directs_nil, d]
+    simp [SAtt.render]
+  · have r1 : (direct c.ending orc).1 = .err k' := by rw [d]
+    rw [directs_cons_err _ _ _ _ r1, d]
+    simp [SAtt.render]
+
+theorem ckAtts_corner_ok (c : Cfg α) (hne : c.ending ≠ []) (m : List α)
+    (hlen : (frame c [m]).length = c.cap) :
+    ckAtts c [m] [⟨frame c [m], none⟩] = .ok ([], false, max 1 0) :=
+  ckAtts_cons_accepted c [m] ⟨frame c [m], none⟩ [] 1 [] false 0
+    (matchPrefix_frame c hne [m] [] (by simp)) (by simp only [hlen]; exact Nat.le_refl _) rfl
+    (ckAtts_nil c _)
+
+theorem ckAtts_corner_err (c : Cfg α) (hne : c.ending ≠ []) (m : List α) (k : Nat)
+    (hlen : (frame c [m]).length = c.cap) :
+    ckAtts c [m] [⟨frame c [m], some k⟩] = .ok ([m], true, 0) :=
+  ckAtts_cons_refused c [m] ⟨frame c [m], some k⟩ [] 1 k [m] false 0
+    (matchPrefix_frame c hne [m] [] (by simp)) (by simp only [hlen]; exact Nat.le_refl _) rfl
+    (ckAtts_nil c _)
+
+/-- (E) the checker accepts an emit of the specification and tracks its pending lines -/
+theorem ckEmit_spec (c : Cfg α) (hne : c.ending ≠ []) (p : List (List α)) (m : List α)
+    (orc : List Outcome) (hlen : (frame c p).length ≤ c.cap) :
+    ckEmit c p m ((⟨(specWrite c p m orc).1, (specWrite c p m orc).2.2.1⟩ : SOpObs α).render c) =
+      .ok (specWrite c p m orc).2.1 := by
+  rcases specWrite_cases c p m orc with ⟨hbig, e⟩ |
+    ⟨hfit, ⟨k, hf, e⟩ | ⟨n', hf, hc, hr, e⟩ | ⟨n', k, hf, hc, hr, e⟩ | ⟨n', hf, hc, e⟩⟩
+  · -- oversize: sent alone
+    rw [e]
+    rcases direct_cases m orc with ⟨os, d⟩ | ⟨k, os, d⟩ <;> rw [d] <;>
+      simp [SOpObs.render, SAtt.render, ckEmit, hbig, pure, Except.pure]
+  · -- the flush fails
+    obtain ⟨hcnd, _, _, _⟩ := pre_err c p m orc k hf
+    rw [pre_flush c p m orc hcnd] at hf e
+    have hr := specFlush_res_err c p orc k hf
+    rw [e]
+    simp only [SOpObs.render, specFlush_render]
+    have hb := ckAtts_flush_some c hne p orc hlen k hr [m] [] (p ++ [m]) false 0 (ckAtts_nil c _)
+    rw [List.append_nil] at hb
+    rw [specFlush_some c p orc k hr]
+    have := ckEmit_err c p m _ k (p ++ [m]) true 0 hfit hb (Or.inr (Or.inl hcnd)) (Or.inr (Or.inl rfl))
+      (lastErr_of_getLast _ k ((flushBuf_atts (frame c p) orc).2.2 k hr).2) (by simp)
+    rw [this]; simp
+  · -- corner, accepted
+    obtain ⟨h0, hcap, hatt⟩ := corner_att c hne _ m (pre c p m orc).2.2.2 hc
+    rw [e]
+    simp only [SOpObs.render, List.map_append]
+    unfold cor at hr ⊢
+    rw [hatt, hr, h0]
+    obtain ⟨hz, hreq, _⟩ := (isCorner_iff c _ m).mp hc
+    by_cases hcnd : (frame c p).length + (m.length + c.ending.length) > c.cap
+    · rw [pre_flush c p m orc hcnd] at hf ⊢
+      have hr' := specFlush_res_ok c p orc n' hf
+      rw [specFlush_render]
+      obtain ⟨b', hb⟩ := ckAtts_flush_none c hne p orc hlen hr' [m] _ _ _ _ (ckAtts_corner_ok c hne m hcap)
+      exact ckEmit_ok c p m _ [] b' _ hfit hb (Or.inr (Or.inl hcnd)) (Or.inr (Or.inr rfl))
+    · rw [pre_skip c p m orc hcnd] at h0 hz ⊢
+      simp only at h0 hz
+      subst h0
+      simp only [List.map_nil, List.nil_append]
+      exact ckEmit_ok c [] m _ [] false _ hfit (ckAtts_corner_ok c hne m hcap)
+        (Or.inr (Or.inr ⟨by rw [hz]; rfl, hreq⟩)) (Or.inl hcnd)
+  · -- corner, refused
+    obtain ⟨h0, hcap, hatt⟩ := corner_att c hne _ m (pre c p m orc).2.2.2 hc
+    rw [e]
+    simp only [SOpObs.render, List.map_append]
+    unfold cor at hr ⊢
+    rw [hatt, hr, h0]
+    obtain ⟨hz, hreq, _⟩ := (isCorner_iff c _ m).mp hc
+    by_cases hcnd : (frame c p).length + (m.length + c.ending.length) > c.cap
+    · rw [pre_flush c p m orc hcnd] at hf ⊢
+      have hr' := specFlush_res_ok c p orc n' hf
+      rw [specFlush_render]
+      obtain ⟨b', hb⟩ := ckAtts_flush_none c hne p orc hlen hr' [m] _ _ _ _ (ckAtts_corner_err c hne m k hcap)
+      exact ckEmit_err c p m _ k [m] b' _ hfit hb (Or.inr (Or.inl hcnd)) (Or.inr (Or.inr rfl))
+        (by simp [lastErr]) (by simp)
+    · rw [pre_skip c p m orc hcnd] at h0 hz ⊢
+      simp only at h0 hz
+      subst h0
+      simp only [List.map_nil, List.nil_append]
+      exact ckEmit_err c [] m _ k [m] true _ hfit (ckAtts_corner_err c hne m k hcap)
+        (Or.inr (Or.inr ⟨by rw [hz]; rfl, hreq⟩)) (Or.inl hcnd) (by simp [lastErr]) (by simp)
+  · -- buffered
+    rw [e]
+    simp only [SOpObs.render]
+    by_cases hcnd : (frame c p).length + (m.length + c.ending.length) > c.cap
+    · rw [pre_flush c p m orc hcnd] at hf ⊢
+      have hr' := specFlush_res_ok c p orc n' hf
+      rw [specFlush_render]
+      obtain ⟨b', hb⟩ := ckAtts_flush_none c hne p orc hlen hr' [m] [] _ _ _ (ckAtts_nil c [m])
+      rw [List.append_nil] at hb
+      rw [specFlush_none c p orc hr']
+      exact ckEmit_ok c p m _ [m] b' _ hfit hb (Or.inr (Or.inl hcnd)) (Or.inr (Or.inr rfl))
+    · rw [pre_skip c p m orc hcnd]
+      exact ckEmit_ok c p m [] (p ++ [m]) false 0 hfit (ckAtts_nil c _) (Or.inl rfl) (Or.inl hcnd)
+
+/-! ### whole lives -/
+
+theorem ckLife_spec_aux (c : Cfg α) (hne : c.ending ≠ []) (ops : List (Op α)) (p : List (List α))
+    (orc : List Outcome) (hlen : (frame c p).length ≤ c.cap) :
+    ckLife c p ops
+      (((specOps c p ops orc).1 ++
+        [(⟨.ok 0, (specDrop c (specOps c p ops orc).2.1 (specOps c p ops orc).2.2).1⟩ : SOpObs α)]).map
+          (SOpObs.render c)) = .ok () := by
+  induction ops generalizing p orc with
+  | nil =>
+    simp only [specOps, List.nil_append, List.map_cons, List.map_nil, ckLife]
+    exact ckDrop_spec c hne p orc hlen
+  | cons op ops ih =>
+    cases op with
+    | emit m =>
+      simp only [specOps, List.cons_append, List.map_cons, ckLife]
+      rw [ckEmit_spec c hne p m orc hlen]
+      exact ih _ _ (specWrite_atts c p m orc hlen).1
+    | flush =>
+      simp only [specOps, List.cons_append, List.map_cons, ckLife]
+      rw [ckFlush_spec c hne p orc hlen]
+      have hp' : (frame c (specFlush c p orc).2.1).length ≤ c.cap := by
+        rcases specFlush_pending c p orc with e | e
+        · rw [e]; exact hlen
+        · rw [e]; exact Nat.zero_le _
+      exact ih _ _ hp'
+
 /-- the checker accepts the whole life of the specification, rendered -/
 theorem ckLife_accepts_spec (c : Cfg α) (hne : c.ending ≠ []) (ops : List (Op α)) (orc : List Outcome) :
     ckLife c [] ops ((specLife c ops orc).map (SOpObs.render c)) = .ok () := by
-  sorry
+  exact ckLife_spec_aux c hne ops [] orc (Nat.zero_le _)
 
 /-- hence it accepts every life of the concrete writer model -/
 theorem ckLife_accepts_model (c : Cfg α) (hne : c.ending ≠ []) (ops : List (Op α)) (orc : List Outcome) :
